@@ -46,7 +46,10 @@ def stepRt (st : St) (pre post : List String) : Verdict :=
       | none => .bad s!"cannot parse value of {full}: {short vx}"
       | some X =>
         let want := normFields s X
-        let sig := s!"roundtrip-changed-{name}"
+        -- a BigDec whose scaled integer needs more than 255 bits (legal for BigDec arithmetic, which
+        -- admits 255+60 bits) gets its own signature: a BigInt cannot hold such a value at all
+        let over := (BigText.canonFields s X).isNone
+        let sig := if over then s!"roundtrip-changed-{name}-bigdec-over-255-bits" else s!"roundtrip-changed-{name}"
         let hs := rest.takeWhile (· ≠ "M")
         let mut? := (rest.dropWhile (· ≠ "M")).drop 1
         -- 1. specification on the implementation's own outputs
@@ -222,16 +225,27 @@ def stepC16 (st : St) (pre post : List String) : Verdict :=
           .propfail s!"reencode-replays-{cls}" s!"@{path}: other bytes, same signed content: {short b1}"
         else .ok
     | _, _ => .bad "hex"
-  | ["bigtext", t], [r] =>
+  | ["bigtext", t], [r, dec, js] =>
     match hexOpt t with
     | none => .bad "hex"
     | some tb =>
+      let parsed := BigText.parseGoInt tb
       let m := match BigText.canonText tb with
         | none => "ERR"
         | some c => String.ofList (c.map fun b => Char.ofNat b.toNat)
+      -- specification on the implementation's own answers: every integer of the documented range
+      -- (|x| < 2^255) written in canonical decimal must be readable by all three decoders
+      let canonicalInRange := match parsed with
+        | some v => BigText.inRange v && Json.intDigits v == tb
+        | none => false
+      if canonicalInRange && (isErr r || isErr dec || isErr js) then
+        .propfail "roundtrip-changed-BigInt-text" s!"in-range decimal text {m} is rejected: proto={r} dec={dec} json={js}"
       -- an empty payload is ignored by BigInt.Unmarshal (the field keeps its previous value)
-      if tb = [] then (if r = "NOP" then .ok else .diff s!"bigtext empty: impl={r}")
-      else if m = r then .ok else .diff s!"bigtext {t}: model={m} impl={r}"
+      else if tb = [] then (if r = "NOP" && dec = "NOP" && isErr js then .ok else .diff s!"bigtext empty: impl={r} {dec} {js}")
+      else if m != r then .diff s!"bigtext {t}: model={m} impl={r}"
+      else if m != dec then .diff s!"bigtext {t} (BigDec.Unmarshal): model={m} impl={dec}"
+      else if m != js then .diff s!"bigtext {t} (BigInt.UnmarshalJSON): model={m} impl={js}"
+      else .ok
   | _, _ => .bad "c16 op"
 
 def step (st : St) (pre post : List String) : St × Verdict :=
